@@ -7,7 +7,7 @@ Monitor at the get_readout_circuit boundary; oracle = independent tableau: all 2
 import itertools
 import random
 
-from ..core import Partial, call, exc_name, Retained
+from ..core import Partial, call, exc_name, Retained, h64
 from ..oracle import conn as oconn, groups, lcorbit
 from ..oracle.pauli import gates_of, conj_circuit, group_elements, inverse_gates, state_of, UnknownGate, to_str
 from ..oracle.circ import fmt as fmt_gates
@@ -45,6 +45,8 @@ def plan(tier, seed):
         t += wp.enum_tasks(6, 255, 1, 1, seed, frac=0.015)     # uniform sample of all six-qubit groups
         t += wp.member_tasks(5, 6, 16, seed, plain_graph_every=9)
         t += wp.member_tasks(6, 8, 96, seed, plain_graph_every=9)
+    for n, k, fr in ((2, 1, 1.0), (3, 1, 1.0), (4, 2, 1.0), (5, 6, 1.0), (6, 24, 0.34 if tier == "quick" else 1.0)):
+        t += wp.tablerep_tasks(n, k, seed, fr)
     for n, cnt, per in ((4, 8, 24), (5, 8, 24), (6, 32, 120)):
         t += wp.neighbour_tasks(n, cnt if tier == "quick" else cnt * 12, 16, seed, per_anchor=per if tier == "quick" else 200)
     random.Random(seed).shuffle(t)
@@ -59,6 +61,14 @@ def check_case(case, rnd, retain=None):
     if not ok:
         return [("input-rejected n=%d fmt=%s" % (n, case["fmt"]), "Stabilizer() raised %s: %s" % (exc_name(st), st))], 0
     stab, fmt_used = st
+    if str(case.get("stratum", "")).startswith("table-representative") or h64(tuple(case["gens"])) % 16 == 0:
+        # the caller first asks for the preparation circuit and goes on building on it (appends gates): must not matter
+        from htstabilizer.stabilizer_circuits import get_preparation_circuit
+        okp, prep = call(get_preparation_circuit, stab, case["conn"])
+        if okp:
+            call(prep.h, 0)
+            call(prep.cx, 0, n - 1)
+            call(prep.measure_all)
     ok, qc = call(get_readout_circuit, stab, case["conn"])
     if not ok:
         return [("readout-raises n=%d conn=%s" % (n, case["conn"]),
